@@ -25,7 +25,8 @@ def run_spec(ctx, cfg, what, shards=None, env=None, timeout=1700, expect_violati
     todo = range(shards) if only is None else range(min(only, shards))
 
     def one(k):
-        e = dict(env, NSHARDS=str(shards), SHARD=str(k))
+        # several single-worker JVMs run side by side: keep each one's GC / JIT thread pools small
+        e = dict(env, NSHARDS=str(shards), SHARD=str(k), JAVA_TOOL_OPTIONS="-XX:ParallelGCThreads=2 -XX:CICompilerCount=2")
         return tlc.run("Instantiate", cfg, workers=1, env=e, deadlock=False, timeout=timeout)
 
     with ThreadPoolExecutor(max(1, len(todo))) as ex:
